@@ -103,6 +103,29 @@ def translate_locked():
         tr["leaf"] = json.loads(lout) if rc == 0 else {"failed": {"gen_leaf.py": lout[-300:]}, "translated": [], "meta": {}}
     except ValueError:
         tr["leaf"] = {"failed": {"gen_leaf.py": lout[-300:]}, "translated": [], "meta": {}}
+    # wire translator (Rust -> Gallina for the straight-line codec functions), Gen/LeafWire.v; its summary is
+    # merged into tr["leaf"] (names are prefixed wire_), so a function a property lists in leaf_functions that
+    # could not be translated is reported as a broken obligation like any other leaf
+    rc, wout, _ = sh([sys.executable, os.path.join(ROOT, "tools", "gen_wire.py")], timeout=120)
+    try:
+        wire = json.loads(wout) if rc == 0 else None
+    except ValueError:
+        wire = None
+    if wire is None:
+        # the translator itself broke: every wire_* function any property lists counts as not translated
+        wire = {"failed": {"gen_wire.py": wout[-300:]}, "translated": [], "meta": {}, "changed": []}
+        for f in glob.glob(os.path.join(ROOT, "props", "C*.json")):
+            try:
+                for n in json.load(open(f)).get("leaf_functions", []):
+                    if n.startswith("wire_"):
+                        wire["failed"][n] = "gen_wire.py failed: " + wout[-200:]
+            except (OSError, ValueError):
+                pass
+    leaf = tr["leaf"]
+    leaf.setdefault("failed", {}).update(wire.get("failed") or {})
+    leaf["translated"] = sorted(set(leaf.get("translated", [])) | set(wire.get("translated", [])))
+    leaf.setdefault("meta", {}).update(wire.get("meta") or {})
+    leaf["changed"] = list(leaf.get("changed", [])) + list(wire.get("changed", []))
     return tr, ""
 
 
